@@ -223,14 +223,45 @@ impl Session {
 
     /// forget the session without running any destructor (power cut / abandonment / after a panic)
     pub fn abandon(mut self) {
-        for f in self.files.drain(..) {
-            std::mem::forget(f);
+        if self.poisoned || self.fs.is_null() || std::thread::panicking() {
+            // after a panic inside the library its RefCells may still be borrowed: the objects can only be leaked
+            for f in self.files.drain(..) {
+                std::mem::forget(f);
+            }
+            for d in self.dirs.drain(..) {
+                std::mem::forget(d);
+            }
+            self.fs = std::ptr::null_mut();
+            // the leaked FileSystem keeps a handle on the device: release the storage so that only the handle leaks
+            let _ = self.dev.take_store();
+            self.dev.clear_logs();
+            return;
         }
-        for d in self.dirs.drain(..) {
-            std::mem::forget(d);
-        }
-        self.fs = std::ptr::null_mut(); // leaked on purpose: a few hundred bytes
-        // the leaked FileSystem keeps a handle on the device: release the storage so that only the handle leaks
+        // Nothing the destructors do may reach the image, the logs or the counters of the device - but leaking the
+        // objects leaks the device they hold a handle on (and whatever store a caller puts back into it afterwards:
+        // hundreds of kilobytes per abandoned session). So the destructors run for real, against a throw-away device
+        // state that is swapped in for their duration.
+        let throwaway = {
+            let d = MemDev::new(crate::dev::Store::Dense(Vec::new()));
+            d.with(|x| x.discard_writes = true);
+            match Rc::try_unwrap(d.0) {
+                Ok(cell) => cell.into_inner(),
+                Err(_) => unreachable!(),
+            }
+        };
+        let saved = std::mem::replace(&mut *self.dev.0.borrow_mut(), throwaway);
+        let fs = std::mem::replace(&mut self.fs, std::ptr::null_mut());
+        let files: Vec<Option<FFile>> = self.files.drain(..).collect();
+        let dirs: Vec<Option<FDir>> = self.dirs.drain(..).collect();
+        let r = catch_unwind(AssertUnwindSafe(move || {
+            drop(files);
+            drop(dirs);
+            // SAFETY: the handles are gone
+            let b = unsafe { Box::from_raw(fs) };
+            drop(b);
+        }));
+        let _ = r;
+        *self.dev.0.borrow_mut() = saved;
         let _ = self.dev.take_store();
         self.dev.clear_logs();
     }
